@@ -50,6 +50,24 @@ def gen_cases(ctx, rng):
                     stats["enders"][ender] = stats["enders"].get(ender, 0) + 1
                     stats["pending_upstream_when_downstream_went_away"] += 1 if pending else 0
                     cases.append(c)
+    # reconfiguration while the connection is ending: a toxic removed / the chain reset / a toxic added while an end-of-stream is held back
+    # by slow_close or still travelling behind data parked in a latency stage
+    stats["reconfigured_while_ending"] = 0
+    for i in range(36 if ctx.tier == "quick" else 900):
+        D = rng.choice([100, 300])
+        holder = rng.choice([L.tx("slow_close", name="h", delay=D), L.tx("latency", name="h", latency=D, jitter=0)])
+        chain = ([L.tx("noop", name="p")] if rng.chance(1, 2) else []) + [holder] + ([L.tx("noop", name="q")] if rng.chance(1, 2) else [])
+        src = [{"at": 2 * L.MS, "n": rng.range(10, 300)}, {"at": 3 * L.MS, "n": rng.range(10, 300)}, {"at": 10 * L.MS, "close": True}]
+        at = 10 * L.MS + rng.range(1, D - 5) * L.MS + rng.range(1, 999)
+        op = rng.choice(["remove_holder", "reset", "add", "remove_nb"])
+        if op == "remove_nb" and len(chain) == 1:
+            op = "remove_holder"
+        ops = [{"remove_holder": {"at": at, "op": "remove", "name": "h"}, "reset": {"at": at, "op": "reset"},
+                "add": {"at": at, "op": "add", "toxic": L.tx("noop", name="z")},
+                "remove_nb": {"at": at, "op": "remove", "name": [x["name"] for x in chain if x["name"] != "h"][0] if len(chain) > 1 else "h"}}[op]]
+        cases.append({"dir": rng.choice(["upstream", "downstream"]), "chain": chain, "src": src, "ops": ops, "horizon": 3600 * 1000 * L.MS,
+                      "seed": 8000 + i, "ender": "src_eof+" + op, "pending_when_downstream_gone": False})
+        stats["reconfigured_while_ending"] += 1
     return cases, stats
 
 
